@@ -740,6 +740,9 @@ fn c08_prepared(slot: &Slot, s: &NameOnly, max_subsets: usize, post_edit: bool, 
                 variants.push(json!({"mask": mask, "mode": mode}));
             }
         }
+        if outer.is_none() && !dnames.is_empty() && (nsub < (1usize << dnames.len().min(6)) || dnames.len() > 6) {
+            TORN_CAPPED.fetch_add(1, Ordering::Relaxed);
+        }
         if !dnames.is_empty() && nsub < (1usize << dnames.len().min(6)) {
             // always include "all dirty files torn"
             variants.push(json!({"mask": (1usize << dnames.len().min(6)) - 1, "mode": "empty"}));
@@ -887,6 +890,7 @@ fn c08_prepared(slot: &Slot, s: &NameOnly, max_subsets: usize, post_edit: bool, 
 
 static POST_EDIT_ON_GRAPH: std::sync::atomic::AtomicBool = std::sync::atomic::AtomicBool::new(false);
 static SECOND_POINTS: AtomicU64 = AtomicU64::new(0);
+static TORN_CAPPED: AtomicU64 = AtomicU64::new(0);
 static DOUBLE_CRASH: std::sync::atomic::AtomicBool = std::sync::atomic::AtomicBool::new(false);
 
 pub fn run_c08(ctx: &Ctx) -> ! {
@@ -969,9 +973,11 @@ pub fn run_c08(ctx: &Ctx) -> ! {
         .set("scenarios", chosen.iter().map(|s| s.name).collect::<Vec<_>>())
         .set("graph_scenarios", graph_scenarios as u64)
         .set("second_crash_kill_points", SECOND_POINTS.load(Ordering::Relaxed))
+        .set("kill_points_where_torn_subsets_were_capped", TORN_CAPPED.load(Ordering::Relaxed))
         .set("rule", "scenarios = the named ones (prepared by a real prior sync) PLUS every distinct bisync transition of the bisync history graph (E2 bound; pre-state materialised with its recorded state); per scenario (prepared by a real prior sync so a trusted archive exists): the process is SIGKILLed immediately before its k-th file-system-mutating libc call for EVERY k = 1..N+1 (N from the interposer log of the uninterrupted run, which is replayed twice for determinism); at each k additionally every subset (capped) of files written since their last fsync is torn (empty / half) — crash model: metadata operations persist in issue order, file data only up to the last fsync; each crash state is checked against the state invariant, then recovered with up to 3 more runs; SECOND CRASH (quick: S2/S6/S7/S8; thorough: every scenario incl. the graph ones): from every untorn first crash state the recovery run is itself killed before every one of its calls, with the first crash state as pre-state of the same invariant and recovery checks; non-trivial = crash state differs from both the initial and the final state")
         .set("samples", json!([{"scenario":"S6-both-changed","kill_at":9,"torn":null},{"scenario":"S2-propagate-A-to-B","kill_at":7,"torn":{"mask":1,"mode":"empty"}}]))
-        .set("exhaustive", true);
+        .set("exhaustive_kill_points", true)
+        .set("exhaustive", TORN_CAPPED.load(Ordering::Relaxed) == 0);
     rep.assume("crash model: rename/unlink/mkdir persist in issue order; data persists only up to the last fsync of that file unless chosen otherwise; at most two crashes in a row (the second one untorn); tmpfs stands in for the disk");
     rep.assume("trace-order invariant evaluated on the interposer log of the uninterrupted run: every staged file is fsynced after its last data write and before its rename; the record's rename comes after all data renames");
     finish(ctx, rep, violations);
